@@ -465,6 +465,16 @@ func inEnvelope(s world.WorldSpec) bool {
 		chunk = b.ShortFixed
 	}
 	big := s.DG2Size
+	if has13 := func() bool {
+		for _, d := range s.DGs {
+			if d == 13 {
+				return true
+			}
+		}
+		return false
+	}(); has13 && s.DG13Size > big {
+		big = s.DG13Size
+	}
 	if big/chunk > 900 {
 		return false
 	}
